@@ -24,7 +24,15 @@ fn reps(p: &EpParams) -> u64 {
 }
 
 fn counts(p: &EpParams) -> Vec<usize> {
-    if p.engine == "miri" { vec![3] } else { COUNTS.to_vec() }
+    if p.engine == "miri" {
+        vec![3]
+    } else if p.engine == "mt" {
+        // worker threads, real clock: what matters is that one page holds many resources whose
+        // actors answer on different threads (reply order is then not creation order by itself)
+        vec![2, 21, 150, 1001]
+    } else {
+        COUNTS.to_vec()
+    }
 }
 
 pub fn plan(p: &EpParams) -> Plan {
@@ -40,7 +48,8 @@ pub fn plan(p: &EpParams) -> Plan {
 }
 
 pub fn run(p: &EpParams) -> EpReport {
-    let rt = episode_runtime(p.ep_seed, true, false, 1);
+    let mt = p.engine == "mt";
+    let rt = episode_runtime(p.ep_seed, !mt, false, if mt { 4 } else { 1 });
     let p2 = p.clone();
     rt.block_on(async move { episode(&p2).await })
 }
@@ -70,7 +79,7 @@ async fn episode(p: &EpParams) -> EpReport {
     let kind = KINDS[(idx % 3) as usize];
     let count = cs[((idx / 3) % cs.len() as u64) as usize];
     let mut rng = Rng::new(p.ep_seed);
-    let w = World::new(transport_of(p), true, None).await;
+    let w = World::new(transport_of(p), p.engine != "mt", None).await;
     let mut seq = Seq::new(&w);
     seq.check_stats_every_step = false;
     seq.settle_each_step = false;
